@@ -96,6 +96,8 @@ pub struct Profile {
     /// first block is a level-1 heading (a note title)
     pub force_title: Option<bool>,
     pub links_in_headings: bool,
+    /// 0 = lists up to 13 items, 1 = also ~100, 2 = also ~1000
+    pub long_lists: u8,
 }
 
 impl Profile {
@@ -117,6 +119,7 @@ impl Profile {
             non_ascii: true,
             force_title: None,
             links_in_headings: false,
+            long_lists: 1,
         }
     }
     pub fn has(&self, c: &str) -> bool {
@@ -425,11 +428,19 @@ impl<'a> Gen<'a> {
 
     pub fn list(&mut self, depth: usize) -> Blk {
         let ordered = self.rng.chance(1, 3);
-        let n = if self.rng.chance(1, 12) {
+        // item counts cross the marker-width boundaries 9->10, 99->100 (and 999->1000 when allowed)
+        let n = if depth == 1 && self.p.long_lists > 0 && self.rng.chance(1, 40) {
+            if self.p.long_lists > 1 && self.rng.chance(1, 4) {
+                self.rng.range(998, 1003)
+            } else {
+                self.rng.range(98, 104)
+            }
+        } else if self.rng.chance(1, 12) {
             self.rng.range(10, 13)
         } else {
             self.rng.range(1, 4)
         };
+        let long = n > 50;
         let mut tight = self.rng.chance(2, 3);
         let mut items = vec![];
         for _ in 0..n {
@@ -439,7 +450,9 @@ impl<'a> Gen<'a> {
                 first.push(self.word());
             }
             item.push(Blk::Para(first));
-            if depth < self.p.max_depth && self.rng.chance(1, 3) {
+            // in long lists only the last items carry more than one block (keeps documents small)
+            let multi = if long { items.len() + 6 >= n && self.rng.chance(2, 3) } else { self.rng.chance(1, 3) };
+            if depth < self.p.max_depth && multi {
                 let k = self.rng.range(1, 2);
                 for _ in 0..k {
                     let prev_is_list = matches!(item.last(), Some(Blk::List(..)));
